@@ -289,7 +289,8 @@ const NAMES: [&str; 16] = [
     "T", "Event", "Kind", "a", "b", "facts", "Duration", "Decimal", "DateTime", "Value", "Int", "None", "Option", "String",
     "$serde_json::private::Number", "$serde_json::private::RawValue",
 ];
-const FIELDS: [&str; 8] = ["a", "b", "id", "name", "facts", "vi", "vm", "a"];
+// (field names are plain strings to a serializer: also raw-identifier spellings, keywords, blanks)
+const FIELDS: [&str; 14] = ["a", "b", "id", "name", "facts", "vi", "vm", "a", "r#type", "type", "r#a", "if", "", "A"];
 
 fn name(d: &mut Dec) -> String {
     d.pick(&NAMES).to_string()
@@ -349,7 +350,7 @@ pub fn gen_sval(d: &mut Dec, depth: u32) -> SVal {
             4 => f64::from_bits(d.u64()),
             _ => d.below(100) as f64 / 4.0,
         }),
-        13 => SVal::Char(*d.pick(&['a', '\u{0}', 'ß', '😀', '"', '\u{10ffff}'])),
+        13 => SVal::Char(*d.pick(&['a', '\u{0}', 'ß', '😀', '"', '\u{10ffff}', 'A', 'Z', 'İ', 'ǅ', 'Σ', '\u{1e9e}', '\u{a0}', '\n'])),
         14 => SVal::Str(crate::gen::gen_string(d)),
         15 => SVal::Bytes((0..d.below(5)).map(|_| d.byte()).collect()),
         16 => SVal::None,
@@ -404,7 +405,12 @@ pub fn gen_sval(d: &mut Dec, depth: u32) -> SVal {
             )
         }
         33 => SVal::Ip([d.byte(), d.byte(), 0, 1]),
-        _ => SVal::Fail(format!("custom failure {}", d.below(9))),
+        _ => SVal::Fail(match d.below(6) {
+            // long messages with multi-byte characters at every byte offset, empty and odd ones
+            4 => format!("{}{}", "x".repeat(d.below(4)), "é€😀".repeat(20 + d.below(60))),
+            5 => (*d.pick(&["", "\n", "{}", "%s", "\u{0}"])).to_string(),
+            _ => format!("custom failure {}", d.below(9)),
+        }),
     }
 }
 
